@@ -754,7 +754,8 @@ class Contract:
     def __init__(self, id, file, qual, params, requires=(), ensures=(), raises=None, may_raise=None,
                  loops=None, calls=None, globals=None, yield_ensures=(), returns=None, modifies=(),
                  prop=None, replay=None, properties=(), note='', is_generator=False, getter=None,
-                 exit_ensures=(), defaults=None, assume_after=None, ghost=None, external=(), raise_ensures=None, hints=(), region=None):
+                 exit_ensures=(), defaults=None, assume_after=None, ghost=None, external=(), raise_ensures=None, hints=(), region=None,
+                 post_state_names=()):
         self.id = id
         self.file = file
         self.qual = qual
@@ -779,6 +780,7 @@ class Contract:
         self.ghost = ghost or {}
         self.external = set(external)
         self.region = region          # (if-test text, ordinal) inside the target function
+        self.post_state_names = tuple(post_state_names)   # parameters whose *new* binding the postconditions mean
         self.hints = list(hints)     # instances of spec lemmas: proved standalone, then assumed at exit
         self.raise_ensures = dict(raise_ensures or {})   # E: [clauses over the state at the raise]             # names of ensures that carry the property (others: scaffolding)
 
@@ -1040,6 +1042,7 @@ class Executor:
             self.assume(self.spec_bool(r, env))
         self.old_env = self.snapshot(env)
         self.input_syms = {k: v for k, v in self.old_env.items()}
+        self.entry_bindings = dict(env)      # what each parameter name was bound to on entry (see rebound_in_clause)
         # vacuity guard: the precondition must be satisfiable on some path
         self.vc(c.id + '#pre-sat', BoolVal(False), kind='vacuity')
         try:
@@ -1082,10 +1085,41 @@ class Executor:
             self.pc.append(f)
         for i, cl in enumerate(clauses):
             name, text = cl if isinstance(cl, tuple) else (str(i), cl)
+            self.rebound_in_clause(name, text)
             self.vc('%s#post.%s' % (c.id, name), self.spec_bool(text, env), kind='external')
         for exc, when in c.raises.items():
             self.vc('%s#noraise.%s' % (c.id, exc), b_not(self.spec_bool(when, self.old_env, use_old=True)),
                     kind='external')
+
+    def rebound_in_clause(self, name, text):
+        """A postcondition that mentions a parameter the function has bound to something else on this path talks about
+        the new binding: `result.tagSet is tagSet` holds trivially once the body says `tagSet = ...`.  Such a clause must
+        say old(<parameter>) -- or, where the new binding is meant, list the name in Contract.post_state_names."""
+        if not isinstance(text, str) or self.c.region:
+            return
+        entry = getattr(self, 'entry_bindings', {})
+        rebound = {k for k, v in entry.items() if k in self.c.params and self.env.get(k) is not v}
+        rebound -= set(getattr(self.c, 'post_state_names', ()) or ())
+        if not rebound:
+            return
+        try:
+            tree = ast.parse(text.replace('==>', ' or ').strip(), mode='eval')
+        except SyntaxError:
+            return
+        bad = set()
+
+        def walk(n):
+            if isinstance(n, ast.Call) and isinstance(n.func, ast.Name) and n.func.id == 'old':
+                return
+            if isinstance(n, ast.Name) and n.id in rebound:
+                bad.add(n.id)
+            for ch in ast.iter_child_nodes(n):
+                walk(ch)
+        walk(tree)
+        if bad:
+            raise ContractError('postcondition %r reads %s, which the function body has rebound on this path: write old(%s), '
+                                'or list the name in post_state_names if the new binding is meant' % (
+                                    name, ', '.join(sorted(bad)), sorted(bad)[0]))
 
     def on_raise(self, exc):
         c = self.c
@@ -2380,16 +2414,23 @@ class Executor:
         else:
             f = model
         args = []
+        star = None
         for a in n.args:
             if isinstance(a, ast.Starred):
                 v = self.ev(a.value)
                 if isinstance(v, Tup):
                     args.extend(v.items)
+                elif isinstance(v, SeqV) and a is n.args[-1]:
+                    # a sequence of unknown length as the trailing positional arguments: handed to the callee's model
+                    # whole, under the keyword '*' (models that do not take it refuse the call)
+                    star = v
                 else:
                     raise Unsupported('*args of %r' % (v,))
             else:
                 args.append(self.ev(a))
         kwargs = self.eval_kwargs(n)
+        if star is not None:
+            kwargs['*'] = star
         kwsnap = None
         if model is not None:
             # snapshot of the keyword arguments as the callee sees them (** expanded), for last_kwargs("...")
